@@ -216,6 +216,11 @@ func (x *Exec) frameCheck(st *State, penv *Env) {
 			continue
 		}
 		s := arrSorts[name]
+		if s == nil {
+			// an array first touched by a havoc: its sort is the sort of its current value
+			s = cur.Sort
+			registerArrSort(name, s)
+		}
 		if s == nil || s.Kind != SArray {
 			continue
 		}
